@@ -29,6 +29,10 @@ type observation struct {
 	err      error
 	de       jerr.DocumentError
 	rendered jerr.DocumentError
+	// the positioned error was handed out wrapped by a step that made the library synthesise a source (AddType of
+	// a regex type): its position is an offset in that synthesised text, which the caller does not have. The
+	// facade leg then holds only the result for the RETURNED error to the RESULT clause (facade.go).
+	synthetic bool
 }
 
 func observe(err error) (o observation) {
